@@ -149,10 +149,75 @@ type Loop struct {
 	Dig     int        `json:"dig"`     // f0 makes a non-tail excursion this deep on its second turn (0 = none)
 	Blocked string     `json:"blocked"` // "", "handler-bind", "ignore-errors", "load-string", "and"
 	BlockAt int        `json:"block_at"`
+	// the family is spread over 1+PK packages: user, pa, pb
+	PK  int    `json:"pk"`  // number of packages besides user (0-2)
+	Pkg []int  `json:"pkg"` // per function: the package it is defined in (0 = user)
+	Ref []int  `json:"ref"` // per function: how it names the next one (ref* constants)
+	Exp []bool `json:"exp"` // per function: exported, and imported (use-package) by every other package
+	Top int    `json:"top"` // the package the top-level call is made from
+	// how the top-level call is made: "" / "direct", "funcall", "funcall-sym",
+	// "apply", "apply2".  Through funcall/apply the bottom frame of the whole
+	// run is a builtin frame entered in the top package, and every tail call
+	// made through funcall/apply anywhere in the family collapses into it.
+	TopVia string `json:"top_via"`
+}
+
+// how a function names the next function of the family
+const (
+	refMinimal   = 0 // bare inside its own package, package-qualified otherwise
+	refBare      = 1 // bare wherever the name is visible (own package or imported), else qualified
+	refHop       = 2 // through hopI, an UNQUALIFIED helper of its own package; every other package binds a decoy of that name
+	refQualified = 3 // always package-qualified, also inside its own package
+)
+
+var pkgNames = []string{"user", "pa", "pb"}
+
+func (l Loop) pkgOf(i int) int {
+	if i < len(l.Pkg) && l.Pkg[i] >= 0 && l.Pkg[i] <= l.PK && l.Pkg[i] < len(pkgNames) {
+		return l.Pkg[i]
+	}
+	return 0
+}
+
+func (l Loop) refOf(i int) int {
+	if i < len(l.Ref) && l.Ref[i] >= 0 && l.Ref[i] <= 3 {
+		return l.Ref[i]
+	}
+	return refMinimal
+}
+
+func (l Loop) exported(i int) bool { return i < len(l.Exp) && l.Exp[i] }
+
+// name answers how code of package `from` written in style `ref` spells
+// function fJ.  bare reports an unqualified spelling.
+func (l Loop) name(from, j, ref int) (spelling string, bare bool) {
+	q := l.pkgOf(j)
+	f := fmt.Sprintf("f%d", j)
+	switch {
+	case ref == refQualified:
+	case q == from:
+		return f, true
+	case ref == refBare && l.exported(j):
+		return f, true
+	}
+	return pkgNames[q] + ":" + f, false
+}
+
+// crossings counts the hops of the cycle f0 -> f1 -> ... -> f0 that change the package.
+func (l Loop) crossings() int {
+	x := 0
+	for i := 0; i < l.NFun; i++ {
+		if l.pkgOf(i) != l.pkgOf((i+1)%l.NFun) {
+			x++
+		}
+	}
+	return x
 }
 
 var elimWraps = []string{"if-then", "if-else", "cond", "cond-else", "cond-body", "progn", "let", "let*", "flet", "labels", "or", "dotimes"}
-var callKinds = []string{"direct", "funcall", "funcall-sym", "apply", "apply2", "thread-first", "thread-last", "head-self", "head-via"}
+// the two symbol-designator kinds are listed twice: they are the only kinds
+// whose meaning depends on the package current when the builtin runs
+var callKinds = []string{"direct", "funcall", "funcall-sym", "apply", "apply2", "thread-first", "thread-last", "head-self", "head-via", "funcall-sym", "apply2"}
 
 func genLoop(blocked bool) *rapid.Generator[Loop] {
 	return rapid.Custom(func(t *rapid.T) Loop {
@@ -176,6 +241,14 @@ func genLoop(blocked bool) *rapid.Generator[Loop] {
 			l.ArgWork = append(l.ArgWork, rapid.IntRange(0, 3).Draw(t, "argwork"))
 			l.Extra = append(l.Extra, rapid.SampledFrom([]int{0, 0, 1, 2, 3, 4}).Draw(t, "extra"))
 		}
+		l.PK = rapid.IntRange(0, 2).Draw(t, "pk")
+		for i := 0; i < l.NFun; i++ {
+			l.Pkg = append(l.Pkg, rapid.IntRange(0, l.PK).Draw(t, "pkg"))
+			l.Ref = append(l.Ref, rapid.IntRange(0, 3).Draw(t, "ref"))
+			l.Exp = append(l.Exp, rapid.Bool().Draw(t, "exp"))
+		}
+		l.Top = rapid.IntRange(0, l.PK).Draw(t, "top")
+		l.TopVia = rapid.SampledFrom([]string{"direct", "direct", "funcall", "funcall-sym", "apply", "apply2"}).Draw(t, "topvia")
 		if blocked {
 			l.Blocked = rapid.SampledFrom([]string{"handler-bind", "ignore-errors", "load-string", "macro-expansion", "and", "handler-retry", "handler-retry"}).Draw(t, "blocked")
 			l.BlockAt = rapid.IntRange(0, l.NFun-1).Draw(t, "blockat")
@@ -222,8 +295,37 @@ func wrap(kind, inner string) string {
 
 func (l Loop) source(n int) string {
 	var b strings.Builder
+	cur := 0
+	in := func(p int) {
+		if p != cur {
+			fmt.Fprintf(&b, "(in-package '%s)\n", pkgNames[p])
+			cur = p
+		}
+	}
+	npk := 1
+	if l.PK > 0 && l.PK < len(pkgNames) {
+		npk = 1 + l.PK
+	}
+	for p := 1; p < npk; p++ {
+		// the host's probe is bound in user only: every package gets the same
+		// builtin under the same unqualified name
+		fmt.Fprintf(&b, "(in-package '%s)\n(use-package 'lisp)\n(set 'probe user:probe)\n", pkgNames[p])
+		cur = p
+	}
+	var decoys []int
 	for i := 0; i < l.NFun; i++ {
-		next := fmt.Sprintf("f%d", (i+1)%l.NFun)
+		P := l.pkgOf(i)
+		in(P)
+		j := (i + 1) % l.NFun
+		next, _ := l.name(P, j, l.refOf(i))
+		if l.refOf(i) == refHop {
+			// the next function is reached through an unqualified helper of
+			// this function's own package
+			target, _ := l.name(P, j, refMinimal)
+			fmt.Fprintf(&b, "(defun hop%d (n acc) (%s n acc))\n", i, target)
+			next = fmt.Sprintf("hop%d", i)
+			decoys = append(decoys, i)
+		}
 		A, B := "(- n 1)", "(+ acc 1)"
 		switch l.ArgWork[i] {
 		case 1:
@@ -240,6 +342,8 @@ func (l Loop) source(n int) string {
 		case "funcall":
 			call = fmt.Sprintf("(funcall %s %s %s)", next, A, B)
 		case "funcall-sym":
+			// a symbol designator is resolved by funcall/apply when it runs, in
+			// the package current at this (tail) call
 			call = fmt.Sprintf("(funcall '%s %s %s)", next, A, B)
 		case "apply":
 			call = fmt.Sprintf("(apply %s (list %s %s))", next, A, B)
@@ -287,13 +391,14 @@ func (l Loop) source(n int) string {
 		// position of the loop body; the call must happen on every turn
 		extra := ""
 		if i < len(l.Extra) {
-			other := fmt.Sprintf("f%d", (i+l.NFun-1)%l.NFun)
+			other, _ := l.name(P, (i+l.NFun-1)%l.NFun, refMinimal)
+			nextFn, _ := l.name(P, j, refMinimal)
 			switch l.Extra[i] {
 			case 1:
 				// a bare statement: its value is discarded, only its effects show
 				extra = fmt.Sprintf("(if (> n 0) (%s 0 n) 0) ", other)
 			case 2:
-				extra = fmt.Sprintf("(if (> n 0) (probe 'nt (+ 1 (%s 0 n))) 0) ", next)
+				extra = fmt.Sprintf("(if (> n 0) (probe 'nt (+ 1 (%s 0 n))) 0) ", nextFn)
 			case 3:
 				extra = fmt.Sprintf("(if (> n 0) (probe 'nt (funcall %s 0 n)) 0) ", other)
 			case 4:
@@ -310,11 +415,122 @@ func (l Loop) source(n int) string {
 			extra = fmt.Sprintf("(if (= acc %d) (dig %d) 0) ", l.NFun, l.Dig) + extra
 		}
 		fmt.Fprintf(&b, "(defun f%d (n acc) (probe 'h n) %s%s)\n", i, extra, body)
+		if l.exported(i) && npk > 1 {
+			fmt.Fprintf(&b, "(export 'f%d)\n", i)
+		}
 	}
-	fmt.Fprintf(&b, "(defun helper (n) (f0 0 n))\n")
-	fmt.Fprintf(&b, "(defun dig (k) (if (<= k 0) 0 (+ 1 (dig (- k 1)))))\n")
-	fmt.Fprintf(&b, "(f0 %d 0)\n", n)
+	// helper and dig are unqualified helpers of whichever package calls them
+	for p := 0; p < npk; p++ {
+		in(p)
+		f0, _ := l.name(p, 0, refMinimal)
+		fmt.Fprintf(&b, "(defun helper (n) (%s 0 n))\n", f0)
+		fmt.Fprintf(&b, "(defun dig (k) (if (<= k 0) 0 (+ 1 (dig (- k 1)))))\n")
+		// a helper name means something else in every other package
+		for _, i := range decoys {
+			if l.pkgOf(i) != p {
+				fmt.Fprintf(&b, "(defun hop%d (n acc) (list 'decoy '%s 'hop%d))\n", i, pkgNames[p], i)
+			}
+		}
+		// exported functions are imported, once everything is defined
+		for q := 0; q < npk; q++ {
+			if q == p {
+				continue
+			}
+			for i := 0; i < l.NFun; i++ {
+				if l.pkgOf(i) == q && l.exported(i) {
+					fmt.Fprintf(&b, "(use-package '%s)\n", pkgNames[q])
+					break
+				}
+			}
+		}
+	}
+	top := 0
+	if l.Top > 0 && l.Top < npk {
+		top = l.Top
+	}
+	in(top)
+	f0, _ := l.name(top, 0, refMinimal)
+	switch l.TopVia {
+	case "funcall":
+		fmt.Fprintf(&b, "(funcall %s %d 0)\n", f0, n)
+	case "funcall-sym":
+		fmt.Fprintf(&b, "(funcall '%s %d 0)\n", f0, n)
+	case "apply":
+		fmt.Fprintf(&b, "(apply %s (list %d 0))\n", f0, n)
+	case "apply2":
+		fmt.Fprintf(&b, "(apply '%s %d (list 0))\n", f0, n)
+	default:
+		fmt.Fprintf(&b, "(%s %d 0)\n", f0, n)
+	}
 	return b.String()
+}
+
+// classes records the package shape of the family.
+func (l Loop) classes(c *vcommon.Ctx) {
+	seen := map[int]bool{}
+	for i := 0; i < l.NFun; i++ {
+		seen[l.pkgOf(i)] = true
+	}
+	c.Class(fmt.Sprintf("packages/%d", len(seen)))
+	switch x := l.crossings(); {
+	case x == 0 && l.pkgOf(0) == 0:
+		c.Class("hops/all-in-user")
+	case x == 0:
+		c.Class("hops/one-library-package")
+	case x == l.NFun:
+		c.Class("hops/every-hop-crosses")
+	default:
+		c.Class("hops/some-hops-cross")
+	}
+	top := 0
+	if l.Top > 0 && l.Top <= l.PK {
+		top = l.Top
+	}
+	if top != l.pkgOf(0) {
+		c.Class("top/calls-into-another-package")
+	}
+	if l.TopVia != "" && l.TopVia != "direct" {
+		c.Class("top/via-funcall-or-apply")
+		// successive hops made through unqualified designators from different
+		// packages all collapse into the one builtin frame at the bottom
+		n := 0
+		for i := 0; i < l.NFun; i++ {
+			_, bare := l.name(l.pkgOf(i), (i+1)%l.NFun, l.refOf(i))
+			if (l.Calls[i] == "funcall-sym" || l.Calls[i] == "apply2") && (bare || l.refOf(i) == refHop) && l.pkgOf(i) != l.pkgOf((i+1)%l.NFun) {
+				n++
+			}
+		}
+		if n >= 2 {
+			c.Class("designator/two-packages-collapse-into-one-builtin-frame")
+		}
+	}
+	for i := 0; i < l.NFun; i++ {
+		P, j := l.pkgOf(i), (i+1)%l.NFun
+		_, bare := l.name(P, j, l.refOf(i))
+		style := "qualified"
+		switch {
+		case l.refOf(i) == refHop:
+			style = "own-helper"
+		case bare && l.pkgOf(j) != P:
+			style = "bare-imported"
+		case bare:
+			style = "bare-own"
+		}
+		c.Class("ref/" + style)
+		if l.Calls[i] == "funcall-sym" || l.Calls[i] == "apply2" {
+			c.Class("designator/" + style)
+			// the shape of 0b8989f: the previous hop went through funcall/apply
+			// from another package, so a collapsed run of this funcall/apply
+			// happens in a frame that was entered in a different package
+			prev := (i + l.NFun - 1) % l.NFun
+			switch l.Calls[prev] {
+			case "funcall", "funcall-sym", "apply", "apply2":
+				if l.pkgOf(prev) != P && style != "qualified" {
+					c.Class("designator/unqualified-below-foreign-funcall")
+				}
+			}
+		}
+	}
 }
 
 func depthOf(l Loop) int {
@@ -332,6 +548,15 @@ func checkLoop(l Loop, c *vcommon.Ctx) *vcommon.Failure {
 		return nil
 	}
 	n1, n2 := l.K, l.K*l.Mult
+	if l.TopVia != "" && l.TopVia != "direct" {
+		// Constant stack means a bound that does not depend on n; the two
+		// sizes compared must both be past the warm-up in which every
+		// function and every funcall/apply frame a later call collapses into
+		// is entered for the first time.  With a funcall/apply frame below
+		// the whole family that takes up to two rounds of the cycle
+		// (measured: the maximum is reached at n = NFun+2 and then stays).
+		n1 += 2 * l.NFun
+	}
 	s1, s2 := l.source(n1), l.source(n2)
 	c.Class("calls/" + strings.Join(l.Calls[:l.NFun], ","))
 	for _, ws := range l.Wraps[:l.NFun] {
@@ -342,6 +567,7 @@ func checkLoop(l Loop, c *vcommon.Ctx) *vcommon.Failure {
 	if l.Blocked != "" {
 		c.Class("blocked/" + l.Blocked)
 	}
+	l.classes(c)
 	if depthOf(l) >= 1 && n1 >= 4 {
 		c.NonTrivial(s2)
 		c.Note(s2)
@@ -470,6 +696,7 @@ type Tramp struct {
 	Via   string `json:"via"`   // funcall | apply | mixed
 	Inner string `json:"inner"` // eliminating wrapper around the tail call
 	Keep  bool   `json:"keep"`  // closures also escape into a list and are called afterwards
+	Pk    int    `json:"pk"`    // 0: everything in user; 1: the maker lives in package pa; 2: two makers in pa and pb alternate
 }
 
 func genTramp() *rapid.Generator[Tramp] {
@@ -477,26 +704,52 @@ func genTramp() *rapid.Generator[Tramp] {
 		return Tramp{K: rapid.IntRange(4, 25).Draw(t, "k"), Mult: 10,
 			Via:   rapid.SampledFrom([]string{"funcall", "apply", "mixed"}).Draw(t, "via"),
 			Inner: rapid.SampledFrom([]string{"", "", "progn", "let", "if-then", "cond", "or"}).Draw(t, "inner"),
-			Keep:  rapid.IntRange(0, 2).Draw(t, "keep") == 0}
+			Keep:  rapid.IntRange(0, 2).Draw(t, "keep") == 0,
+			Pk:    rapid.IntRange(0, 2).Draw(t, "pk")}
 	})
 }
 
 func (tr Tramp) source(n int) string {
-	call := "(funcall (mk (- n 1) (+ acc 1)))"
-	switch tr.Via {
-	case "apply":
-		call = "(apply (mk (- n 1) (+ acc 1)) ())"
-	case "mixed":
-		call = "(if (= (mod n 2) 0) (funcall (mk (- n 1) (+ acc 1))) (apply (mk (- n 1) (+ acc 1)) ()))"
+	call := func(mk string) string {
+		c := "(funcall (" + mk + " (- n 1) (+ acc 1)))"
+		switch tr.Via {
+		case "apply":
+			c = "(apply (" + mk + " (- n 1) (+ acc 1)) ())"
+		case "mixed":
+			c = "(if (= (mod n 2) 0) (funcall (" + mk + " (- n 1) (+ acc 1))) (apply (" + mk + " (- n 1) (+ acc 1)) ()))"
+		}
+		if tr.Inner != "" {
+			c = wrap(tr.Inner, c)
+		}
+		return c
 	}
-	if tr.Inner != "" {
-		call = wrap(tr.Inner, call)
+	if tr.Pk <= 0 || tr.Pk > 2 {
+		keep := ""
+		if tr.Keep {
+			keep = "(set 'kept (cons (lambda () n) kept)) "
+		}
+		return fmt.Sprintf("(set 'kept ())\n(defun mk (n acc) (lambda () (probe 'h n) %s(if (<= n 0) acc %s)))\n(list (funcall (mk %d 0)) (map 'list (lambda (f) (funcall f)) kept))\n", keep, call("mk"), n)
 	}
+	// the makers live in library packages: a closure belongs to the package
+	// that was current when it was made.  Pk == 1: one maker in pa, driven
+	// from user.  Pk == 2: makers in pa and pb hand over to each other, so
+	// every turn of the loop enters a closure of the other package.
+	var b strings.Builder
 	keep := ""
 	if tr.Keep {
-		keep = "(set 'kept (cons (lambda () n) kept)) "
+		keep = "(user:keep! (lambda () n)) "
 	}
-	return fmt.Sprintf("(set 'kept ())\n(defun mk (n acc) (lambda () (probe 'h n) %s(if (<= n 0) acc %s)))\n(list (funcall (mk %d 0)) (map 'list (lambda (f) (funcall f)) kept))\n", keep, call, n)
+	b.WriteString("(set 'kept ())\n(defun keep! (f) (set 'kept (cons f kept)))\n")
+	b.WriteString("(in-package 'pa)\n(use-package 'lisp)\n(set 'probe user:probe)\n")
+	other := "mk"
+	if tr.Pk == 2 {
+		other = "pb:mk2"
+		b.WriteString("(in-package 'pb)\n(use-package 'lisp)\n(set 'probe user:probe)\n")
+		fmt.Fprintf(&b, "(defun mk2 (n acc) (lambda () (probe 'h n) %s(if (<= n 0) acc %s)))\n(in-package 'pa)\n", keep, call("pa:mk"))
+	}
+	fmt.Fprintf(&b, "(defun mk (n acc) (lambda () (probe 'h n) %s(if (<= n 0) acc %s)))\n", keep, call(other))
+	fmt.Fprintf(&b, "(in-package 'user)\n(list (funcall (pa:mk %d 0)) (map 'list (lambda (f) (funcall f)) kept))\n", n)
+	return b.String()
 }
 
 func checkTramp(tr Tramp, c *vcommon.Ctx) *vcommon.Failure {
@@ -506,6 +759,7 @@ func checkTramp(tr Tramp, c *vcommon.Ctx) *vcommon.Failure {
 	n1, n2 := tr.K, tr.K*tr.Mult
 	s1, s2 := tr.source(n1), tr.source(n2)
 	c.Class("via/" + tr.Via)
+	c.Class(fmt.Sprintf("maker-packages/%d", tr.Pk))
 	c.NonTrivial(s2)
 	c.Note(s2)
 	f, r1 := transparent(s1, c)
@@ -543,7 +797,13 @@ func checkRepeated(l Loop, c *vcommon.Ctx) *vcommon.Failure {
 	idx := strings.LastIndex(strings.TrimRight(body, "\n"), "\n")
 	defs := body[:idx+1]
 	reps := 12
-	src := defs + fmt.Sprintf("(let ((acc2 0)) (dotimes (r %d) (set! acc2 (+ acc2 (f0 %d 0)))) (list acc2 (f0 %d 0)))\n", reps, n, n)
+	top := 0
+	if l.Top > 0 && l.Top <= l.PK {
+		top = l.Top
+	}
+	f0, _ := l.name(top, 0, refMinimal)
+	l.classes(c)
+	src := defs + fmt.Sprintf("(let ((acc2 0)) (dotimes (r %d) (set! acc2 (+ acc2 (%s %d 0)))) (list acc2 (%s %d 0)))\n", reps, f0, n, f0, n)
 	// the limit one run needs: measured, then given a little room
 	need := 0
 	for lim := 1; lim <= 4*n+8; lim++ {
